@@ -28,9 +28,7 @@ TRUST = [
     "the score history is read from the private list `_change_score` (as an observable, never as an oracle)",
     "numpy's summation order inside np.sum (histogram normalisation, intersection) is modelled as a left fold; compared with rel 1e-9",
     "thin-margin rule: a drift decision that differs while the Page-Hinkley margin |diff - theta| is in (0, 1e-9) on the model's or "
-    "the implementation's statistics is truncated, an exact tie on both sides is decisive; the known finding "
-    "'pcacd-repeated-window-negative-residue-alarm' (score -2.2e-16 on a repeated window alarms when ph_threshold >= 1) is such a case "
-    "and is reported through the repeat-window clause, with its witness in corpus/C11",
+    "the implementation's statistics is truncated, an exact tie on both sides is decisive",
     "excluded configurations: window_size = 0, round(sample_period*window_size) <= 0, NaN/inf data, constant components",
 ]
 
@@ -306,6 +304,8 @@ def clauses(PageHinkley, cfg, X, params, obs):
             if due:
                 if cfg.get("kind") == "repeat" and cfg["metric"] == "i" and abs(sc) > 1e-9:
                     bad.append(("intersection score is not 0 although the test window repeats the reference window", n, sc)); break
+                if cfg["metric"] == "i" and sc < 0:
+                    bad.append(("negative intersection score (max(1 - intersection, 0.0) is never negative)", n, sc)); break
                 if not (-1e-12 <= sc <= 1 + 1e-12):
                     bad.append(("change score outside [0, 1]", n, sc)); break
                 mon.update(sc)
@@ -320,10 +320,8 @@ def clauses(PageHinkley, cfg, X, params, obs):
                 bad.append(("drift reported on an update without a score", n, None)); break
             if drift == "D" and cfg.get("kind") == "repeat" and cfg["metric"] == "i":
                 # exact arithmetic: all scores 0, the monitor's sum only decreases, never an alarm
-                known = sc < 0 and abs(sc) < 1e-12 and thr >= 1
                 bad.append(("drift reported although the test window only ever repeats the reference window", n,
-                            {"score": sc, "ph_threshold": thr,
-                             "class": "pcacd-repeated-window-negative-residue-alarm" if known else "other"}))
+                            {"score": sc, "ph_threshold": thr}))
                 break
             if drift == "D":
                 reset_at, B = n + 1, n + 1 + w
@@ -445,9 +443,7 @@ def compare(ctx, cfg, spec, X, iparams, obs, mparams, res, plan, imargins):
             # thin margin of the Page-Hinkley comparison `diff > theta`, on the model's statistics or on those a
             # PageHinkley instance derives from the implementation's own scores.  An exact tie on BOTH sides is NOT
             # thin: with ph_threshold = 0 (window_size <= 50) theta = 0 and diff = sum - min = 0 hold exactly whenever
-            # the running sum sets a new minimum, which is what makes `>` versus `>=` observable.  (A change score of
-            # -2.2e-16 instead of 0 on a repeated window makes theta = threshold * mean negative and the real
-            # detector alarm with margin 2.2e-16 when ph_threshold >= 1: counted here, reported in TRUST.)
+            # the running sum sets a new minimum, which is what makes `>` versus `>=` observable.
             ctx.thin += 1
             ctx.count("thin:" + ("repeat" if cfg.get("kind") == "repeat" else "other"))
             return
@@ -496,8 +492,6 @@ def run_cases(ctx, cases, PCACD, PageHinkley):
         if len(ip) == 3:
             for what, n, detail in bad:
                 sig = {"component": "PCACD", "kind": "clause", "what": what}
-                if isinstance(detail, dict) and detail.get("class") == "pcacd-repeated-window-negative-residue-alarm":
-                    sig = {"class": detail["class"]}
                 ctx.fail(signature=sig, what=what, step=n, detail=detail,
                          config={k: cfg[k] for k in ("w", "ev", "delta", "metric", "sp", "scaling")}, stream_spec=spec,
                          stream_prefix=X[:n].tolist() if n else None)
